@@ -532,6 +532,10 @@ class _Metadata:
         object.__setattr__(self, '_fields', fields)
 
     def __getattr__(self, name):
+        # While an instance is being copied or unpickled, '_fields' itself is
+        # not there yet; looking it up here would recurse for ever.
+        if name == '_fields' or (name.startswith('__') and name.endswith('__')):
+            raise AttributeError(name)
         return self._fields.get(name)
 
     def __setattr__(self, name, value):
